@@ -76,8 +76,11 @@ theorem lowered_program_walkable {p : Phase} {a : Ast} (h : createAst p = .ok a)
 
 /-! ### the result does not depend on the order in which the statements are stored -/
 
+theorem ids_perm_nodup {p p' : Phase} (hp : p.Perm p') (hnd : (ids p).Nodup) : (ids p').Nodup := by
+  unfold ids at *; exact (List.Perm.nodup_iff (hp.map _)).mp hnd
+
 theorem lookup_perm {p p' : Phase} (hp : p.Perm p') (hnd : (ids p).Nodup) : lookup p = lookup p' := by
-  have hnd' : (ids p').Nodup := (List.Perm.nodup_iff (hp.map (·.id))).mp hnd
+  have hnd' : (ids p').Nodup := ids_perm_nodup hp hnd
   funext i
   cases hl : lookup p i with
   | none =>
@@ -135,7 +138,7 @@ theorem isort_eq_of_perm {l l' : List Nat} (h : l.Perm l') : isort l = isort l' 
   · exact (isort_perm l).trans (h.trans (isort_perm l').symm)
 
 theorem sinks_perm {p p' : Phase} (hp : p.Perm p') (hnd : (ids p).Nodup) : sinks p = sinks p' := by
-  have hnd' : (ids p').Nodup := (List.Perm.nodup_iff (hp.map (·.id))).mp hnd
+  have hnd' : (ids p').Nodup := ids_perm_nodup hp hnd
   unfold sinks
   rw [eraseDups_of_nodup hnd, eraseDups_of_nodup hnd']
   apply isort_eq_of_perm
@@ -146,7 +149,7 @@ theorem sinks_perm {p p' : Phase} (hp : p.Perm p') (hnd : (ids p).Nodup) : sinks
   have : (fun i => !(allDeps p).contains i) = (fun i => !(allDeps p').contains i) := by
     funext i; rw [hmem i]
   rw [this]
-  exact (hp.map (·.id)).filter _
+  unfold ids; exact (hp.map _).filter _
 
 theorem tstep_congr {p p' : Phase} (h : lookup p = lookup p') (s : St) : tstep p s = tstep p' s := by
   unfold tstep; rw [h]
@@ -168,7 +171,7 @@ theorem storage_order_irrelevant {p p' : Phase} (hp : p.Perm p') (wf : LWF p) :
   have hl := lookup_perm hp wf.nodup
   have hs := sinks_perm hp wf.nodup
   have wf' : LWF p' := by
-    refine ⟨(List.Perm.nodup_iff (hp.map (·.id))).mp wf.nodup, ?_, ?_⟩
+    refine ⟨ids_perm_nodup hp wf.nodup, ?_, ?_⟩
     · intro s hs' d hd
       obtain ⟨t, ht, he⟩ := wf.closed s (hp.mem_iff.mpr hs') d hd
       exact ⟨t, hp.mem_iff.mp ht, he⟩
@@ -191,7 +194,7 @@ theorem storage_order_irrelevant {p p' : Phase} (hp : p.Perm p') (wf : LWF p) :
 /-! non-vacuity: ids whose sorted order is not topological, a guard, a loop, a no-op -/
 def exP : Phase := [⟨2, [], false, none, []⟩, ⟨0, [2, 1], false, some (.flag 0), [1]⟩, ⟨1, [2], true, none, []⟩]
 example : topoOrder exP = .ok [2, 1, 0] := by decide
-example : createAst exP = .ok (.block [.leaf 2, .loop 1 (.ifThen (.flag 0) (.leaf 0))]) := by decide
+example : createAst exP = .ok (.block [.leaf 2, .loop 1 (.ifThen (.flag 0) (.leaf 0))]) := by rfl
 example : LWF exP := by
   refine ⟨by decide, ?_, ⟨fun i => 2 - i, ?_⟩⟩
   · intro s hs d hd
